@@ -391,7 +391,7 @@ func ruleLineIncludes(w *World, r *Report) {
 		return
 	}
 	// every store into acc (here and in closures) is the init, the point-lookup result, uniq, or append(load acc, ...)
-	bad := ""
+	bad, open := "", ""
 	check := func(g *ssa.Function, addr ssa.Value) {
 		instrs(g, func(in ssa.Instruction) {
 			st, ok := in.(*ssa.Store)
@@ -404,6 +404,36 @@ func ruleLineIncludes(w *World, r *Report) {
 			}
 			if c, ok := v.(*ssa.Call); ok && builtinName(c) == "append" {
 				if ld, ok := loadOf(c.Call.Args[0]); ok && ld == addr {
+					return
+				}
+			}
+			// a de-duplication of the accumulator itself keeps every member
+			if c, ok := v.(*ssa.Call); ok && builtinName(c) == "" && len(c.Call.Args) >= 1 {
+				if ld, ok := loadOf(stripConv(c.Call.Args[0])); ok && ld == addr {
+					if distinctFor(w).fnReturnsDistinct(calleeOf(c)) {
+						return
+					}
+					// some other function of the accumulator: not followed
+					if open == "" {
+						open = "the accumulator is replaced by " + shortInstr(c) + " at " + w.Pos(st.Pos())
+					}
+					return
+				}
+			}
+			// a store on a path that can only end in a failure return (return []string{}, err
+			// with named results) does not touch any success result
+			if g == f {
+				reach := reachableFrom(st.Block(), nil)
+				any, all := false, true
+				for _, ret := range returnsOf(f) {
+					if reach[ret.Block()] {
+						any = true
+						if !scFor(w).isFailureReturn(f, ret) {
+							all = false
+						}
+					}
+				}
+				if any && all {
 					return
 				}
 			}
@@ -423,6 +453,8 @@ func ruleLineIncludes(w *World, r *Report) {
 	}
 	if bad != "" {
 		r.add("INCLUDES", fn+" / accumulator", pos, Violated, bad)
+	} else if open != "" {
+		r.add("INCLUDES", fn+" / accumulator", pos, Undecided, open)
 	} else {
 		r.add("INCLUDES", fn+" / accumulator", pos, Discharged, "accumulator = de-duplicated end-point IDs, afterwards only appended to")
 	}
